@@ -86,6 +86,21 @@ pub fn scenarios(quick: bool) -> Vec<Scenario> {
         programs: vec![vec![], s(&["replicate t k -1 a1", "replicate t j -1 x1", "replicate-remove t k"]), s(&["set k a2"])],
         sub_keys: vec!["k"],
     });
+    // the same commands as a primary sends them: wrapped in `rp <operation id>` (acknowledged afterwards)
+    out.push(Scenario {
+        name: "replicated-writes-with-operation-id",
+        setup: Setup { strategy: "none", init: s(&["set k 0", "set j 0"]), session_init: vec![vec![tok(), "watch k".into()], link(), vec![tok()]], check_replica: false },
+        programs: vec![vec![], s(&["rp 41 replicate t k -1 a1", "rp 42 replicate-remove t k"]), s(&["set k a2"])],
+        sub_keys: vec!["k"],
+    });
+    // (the wrapper answers Ok whatever the wrapped command did, so a wrapped increment is only used
+    // where it cannot be refused: on a key that only ever holds numbers)
+    out.push(Scenario {
+        name: "replicated-increments-with-operation-id",
+        setup: Setup { strategy: "none", init: s(&["set k 5"]), session_init: vec![vec![tok(), "watch k".into()], link(), vec![tok()]], check_replica: false },
+        programs: vec![vec![], s(&["rp 43 replicate-increment t k 1", "rp 44 replicate-increment t k 1"]), s(&["increment k"])],
+        sub_keys: vec!["k"],
+    });
     out.push(Scenario {
         name: "replicated-increments",
         setup: Setup { strategy: "none", init: s(&["set k 5"]), session_init: vec![vec![tok(), "watch k".into()], link(), vec![tok()]], check_replica: false },
@@ -160,7 +175,10 @@ fn judge(sc: &Scenario, ops: &[OpRec], sub_msgs: &[String], probe: &[(String, bo
         for o in ops.iter() {
             // a write arriving over a replication link is a mutation like any other
             let norm: String = {
-                let t: Vec<&str> = o.line.split(' ').collect();
+                let mut t: Vec<&str> = o.line.split(' ').collect();
+                if t.first() == Some(&"rp") && t.len() > 2 {
+                    t.drain(0..2);
+                }
                 match t.first().copied() {
                     Some("replicate") if t.len() >= 5 => format!("set {} {}", t[2], t[4..].join(" ")),
                     Some("replicate-remove") if t.len() >= 3 => format!("remove {}", t[2]),
@@ -225,7 +243,7 @@ fn judge(sc: &Scenario, ops: &[OpRec], sub_msgs: &[String], probe: &[(String, bo
             return Some(Judged { clause: if n_inc < inc_must { "missed-notification".into() } else { "duplicate-notification".into() }, detail: format!("{} increment notifications for {}, expected between {} and {}; stream {:?}", n_inc, key, inc_must, inc_must + inc_may, sub_msgs) });
         }
         // (5) highest-versioned notification carries the current value (keys written only by set/set-safe)
-        let only_sets = ops.iter().all(|o| !(o.line.starts_with(&format!("remove {}", key)) || o.line.starts_with(&format!("increment {}", key)) || o.line.starts_with(&format!("replicate-remove t {}", key)) || o.line.starts_with(&format!("replicate-increment t {}", key))));
+        let only_sets = ops.iter().all(|o| !(o.line.starts_with(&format!("remove {}", key)) || o.line.starts_with(&format!("increment {}", key)) || o.line.starts_with(&format!("replicate-remove t {}", key)) || o.line.starts_with(&format!("replicate-increment t {}", key)) || (o.line.starts_with("rp ") && (o.line.contains("replicate-remove") || o.line.contains("replicate-increment")))));
         if only_sets && u_call == inf && w_ret == 0 {
             let mut best: Option<(i32, String)> = None;
             for m in sub_msgs.iter() {
